@@ -333,7 +333,7 @@ NOP_STMTS = {
     "p_update_s": ("update s set v = %s where k = %s", ("z", 1)),
 }
 NOP_QUICK_STMTS = [
-    "call_lc", "call_lead_blank", "grant_uc", "revoke_lead_blank", "select_grant_later", "insert_grant_later",
+    "call_lc", "call_lead_blank", "grant_uc", "revoke_lead_blank", "revoke", "select_grant_later", "insert_grant_later",
     "insert_t_uc", "truncate", "delete_uc", "update_t", "update_s", "p_call_1", "p_call_2", "p_insert_t", "p_select", "p_update_t",
 ]  # fmt: skip
 STATUS_ROW = ("Statement executed successfully.",)
